@@ -111,6 +111,19 @@ func Inputs() []input {
 		}
 	}
 	ins = append(ins, input{"entropy", p})
+
+	// P8: names that differ only in letter case, with equal weights: label values and label keys on one
+	// node, and sibling functions / files (an order that folds case is not total on these)
+	p = base()
+	fu, fl := ln("Fn", "X.go", 1), ln("fn", "x.go", 1)
+	p.Stacks = []ap.Stack{
+		{Locs: []ap.Loc{L(0, 0x1010, r), L(0, 0x1020, a)}, Values: []int64{2, 2}, Labels: map[string][]string{"k": {"GET"}, "Region": {"eu"}}},
+		{Locs: []ap.Loc{L(0, 0x1010, r), L(0, 0x1020, a)}, Values: []int64{2, 2}, Labels: map[string][]string{"k": {"get"}, "region": {"eu"}}},
+		{Locs: []ap.Loc{L(0, 0x1010, r), L(0, 0x1020, a)}, Values: []int64{2, 2}, Labels: map[string][]string{"k": {"Get"}, "REGION": {"EU"}}},
+		{Locs: []ap.Loc{L(0, 0x1010, r), L(0, 0x1070, fu)}, Values: []int64{2, 2}},
+		{Locs: []ap.Loc{L(0, 0x1010, r), L(0, 0x1080, fl)}, Values: []int64{2, 2}},
+	}
+	ins = append(ins, input{"case-only-names", p})
 	return ins
 }
 
